@@ -131,7 +131,7 @@ PROPS = {
                    'search on the real modules (calls x toggles x in-place mutation vs a fresh-cache reference).',
     ),
     'C06': dict(
-        own_files=['Lemmas/LC06.v', 'Props/C06.v'],
+        own_files=['Lemmas/LC06.v', 'Lemmas/LLdv.v', 'Props/C06.v'],
         corr=[dict(script='corr_gen.py', n=500, n_thorough=10000, args=['Framework.LDV', 'Homogeneous.swamee_jain_ff', 'Heterogeneous.vt_ruby'])],
         search='C06.py', budget_quick=600, budget_thorough=40000,
         partial=['C06_converged: that LDV(max_steps=10) is within 0.1 % of the fixed points of its four implicit equations on E is not proved (needs a '
@@ -238,18 +238,28 @@ PROPS = {
         level_note='Hand-written model compared bit for bit (whole dict) with create_fracs on 3-, 4- and 5-point inputs, with get_dx and generate_GSD.',
     ),
     'C15': dict(
-        own_files=['Lemmas/LC15a.v', 'Props/C15.v'],
+        own_files=['Lemmas/LC15a.v', 'Lemmas/LC15b.v', 'Props/C15.v'],
         corr=[dict(script='corr_excel.py', n=4, n_thorough=40)],
         search='C15.py', budget_quick=12, budget_thorough=250,
-        partial=['C15_roundtrip of the whole workbook (sections, pumps, curves, drivers): the loader side is modelled (Models/Excel.v) and compared '
-                 'with the real loader on real store_to_excel output, but store_to_excel itself is not modelled and load(store p) = p is not a '
-                 'theorem; it is searched on generated pipelines (objects compared field by field, heads at 1e-9)',
-                 'numbers pass through openpyxl, which writes 16 significant digits: equality of stored numbers is up to that rounding'],
+        partial=['C15 whole-workbook round trip is a theorem about the abstract workbook (load (store p) = p, Models/ExcelStore.v and Excel.v); the step '
+                 'from the abstract workbook to the bytes of the .xlsx file and back is openpyxl (an oracle): numbers pass through a 16-significant-'
+                 'digit decimal representation, so on real files equality of stored numbers is up to that rounding; compared on generated '
+                 'pipelines (objects field by field, heads at 1e-9)',
+                 'C15 equivalence of the reloaded OBJECTS (Pipeline / Pump / Slurry instances rebuilt by the loader from the abstract data, '
+                 'system and pump heads at any flow) is checked on the real code by the search, not proved; the grading part is proved '
+                 '(C15_grading_roundtrip)',
+                 'C15_roundtrip covers up to 40 pumps with the tab names store_to_excel uses (the name facts are checked by computation for '
+                 'k = 1..40); for any naming scheme and any number of pumps it holds under the stated recognisability premises '
+                 '(C15_roundtrip_any_naming)'],
         level_text='Proof: (file name, whitelist regenerated from the source) for every list of code points as pipeline name / requested name / time '
                    'stamp the stored base name is [A-Za-z0-9_-]* followed by ".xlsx", contains no path separator (so it is a direct child of the '
                    'requested folder) and a trailing ".xlsx" is not doubled; (grading) the three stored diameters D15/D50/D85 regenerate exactly '
-                   'the same grading for every slurry with ratios above 1 and D50 above the pseudo-liquid limit, whatever the solids density.',
-        level_note='The whole-workbook round trip is partial (search). xlsx number formatting and openpyxl are trusted oracles.',
+                   'the same grading for every slurry with ratios above 1 and D50 above the pseudo-liquid limit, whatever the solids density; '
+                   '(whole workbook) load (store p) = p for every well-formed abstract pipeline -- every section, pump curve row, driver and slurry '
+                   'field -- for any numeric instance (decode (encode x) = x, induction over the section list).',
+        level_note='The store model is compared cell by cell with the in-memory workbook the real store_to_excel builds (captured at save time); the '
+                   'loader model with the real loader on stored files and on every single fault of them. xlsx number formatting and openpyxl are '
+                   'trusted oracles.',
     ),
     'C16': dict(
         own_files=['Lemmas/LC16.v', 'Props/C16.v'],
@@ -294,16 +304,16 @@ PROPS = {
                    'the real viewer and checks every clause of the property after every event.',
     ),
     'C02': dict(
-        own_files=['Lemmas/SwameeJain.v', 'Lemmas/LIl.v', 'Lemmas/LSettle.v', 'Lemmas/LDefined.v', 'Lemmas/LFb.v', 'Lemmas/LC02.v', 'Props/C02.v'],
+        own_files=['Lemmas/SwameeJain.v', 'Lemmas/LIl.v', 'Lemmas/LSettle.v', 'Lemmas/LDefined.v', 'Lemmas/LFb.v', 'Lemmas/LLdv.v', 'Lemmas/LC02.v', 'Props/C02.v'],
         corr=[dict(script='corr_gen.py', n=250, n_thorough=6000,
                    args=['Homogeneous.fluid_head_loss', 'Homogeneous.Erhg', 'Heterogeneous.vt_ruby', 'Heterogeneous.vth_RZ', 'Heterogeneous.Shr',
                          'Heterogeneous.Srs', 'Heterogeneous.Erhg', 'Stratified.fb_Erhg', 'Stratified.vls_FBSB', 'Framework.Cvs_Erhg',
                          'Framework.LDV', 'Framework.slip_ratio', 'Framework.Cvs_from_Cvt', 'Framework.Cvt_Erhg', 'Framework.pseudo_dlim']),
               dict(script='corr_slurry.py', n=12, n_thorough=200, args=['--parts', 'curves,graded'])],
         search='C02.py', budget_quick=300, budget_thorough=20000,
-        partial=['C02 LDV (four fixed-step loops) and vls_FBSB (Newton loop): their generated side-condition predicates (LDV_ok, vls_FBSB_ok) are '
-                 'regenerated with the model but not proved on E (every iterate must be shown positive); decided on the real code by the '
-                 'search (every public call on envelope points, corners over-weighted)',
+        partial=['C02 vls_FBSB (Newton loop): its side-condition predicate needs a non-zero finite-difference slope of the fixed-bed excess '
+                 'gradient at every iterate (C04: FB rising, unproved); decided on the real code by the search (every public call on '
+                 'envelope points, corners over-weighted)',
                  'C02 delivered-concentration path in general: proved for coarse grains (d/Dp >= 0.06, where the sliding-flow weight is 0): '
                  'Cvt < Cvs < Cvb; for finer grains Cvs <= Cvb is the unproved upper half of C05; the exact zero of the Eqn 8.12-3 denominator '
                  'is a recorded finding',
@@ -315,8 +325,9 @@ PROPS = {
                    'diameter positive, all three friction-factor logarithm arguments strictly inside (0,1)), the sliding bed, the heterogeneous '
                    'model (Richardson-Zaki exponent in (2.34, 4.7) hence KC > 0.58 > Cvs; sqrtcx positive on every branch) and the homogeneous '
                    'model, for both settings of both switches; settling velocities defined and positive; for coarse grains on the '
-                   'delivered-concentration path Cvt < Cvs < Cvb strictly. LDV, the Cvt path of finer grains, graded sand and the curve '
-                   'tables are partial (searched).',
+                   'delivered-concentration path Cvt < Cvs < Cvb strictly; LDV is defined for every iteration budget (every iterate of its four '
+                   'loops positive, friction factor defined on the laminar and the turbulent branch). vls_FBSB, the Cvt path of finer grains, '
+                   'graded sand and the curve tables are partial (searched).',
         level_note='The side-condition predicates f_ok are emitted by the translator next to each function (non-zero divisors, positive log / power '
                    'arguments, in-range table keys). Model executed bit-exactly against the real functions, including inputs on which both raise. '
                    'Known finding: the exact zero of the Eqn 8.12-3 denominator (ZeroDivisionError), identified by its call site.',
